@@ -709,7 +709,7 @@ static bool call_external(State &s, const CallInst *ci, const std::string &name,
   }
   if (name == "atof" || name == "strtod")
   {
-    std::string a = conc_str(s, args[0], name.c_str());
+    std::string a = conc_str_fork(s, args[0], name.c_str());
     double d = atof(a.c_str()); uint64_t bits; memcpy(&bits, &d, 8);
     set_reg(s, ci, mk_int(64, bits)); return true;
   }
